@@ -69,6 +69,12 @@ def pools():
              Eq(x * y, y * x), Eq(x * (y + Nat(1)), x * y + x), Eq(x + y, y + x + Nat(1)), Eq(Comb(Lambda(u, f(u)), a), b), Eq(f(a), b), P(Comb(Lambda(u, u), a)), P(a), Forall(u, P(u)),
              Exists(u, P(u)), Forall(u, Implies(P(u), P(f(u)))), Eq(a, b), Eq(b, a), Eq(g(x), y), Eq(x, y), Or(Not(p), q), Not(And(p, q)), Not(Or(p, q)), Implies(Not(Not(p)), p),
              Eq(Nat(0) + x, x), Eq(x + Nat(1), Const('Suc', TFun(NatType, NatType))(x)), x < x + Nat(1)]
+    # redexes whose contraction creates a new redex; quantified statements whose body ignores the bound variable
+    F1 = Var('F1', TFun(TFun(A, A), A))
+    ff = Var('ff', TFun(A, A))
+    hoterms = [Eq(Comb(Lambda(ff, ff(a)), Lambda(u, f(u))), b), Eq(Comb(Comb(Lambda(ff, Lambda(u, ff(ff(u)))), Lambda(u, f(u))), a), b), P(Comb(Lambda(ff, ff(a)), Lambda(u, u))),
+               Forall(u, p), Exists(u, p), Forall(x, Eq(y, y)), Forall(u, Implies(p, q)), Comb(Lambda(u, p), a), Eq(Comb(Lambda(x, Lambda(y, x + y)), Nat(1)), g)]
+    terms = terms + hoterms
     names = [n for n in ('conjI', 'conjD1', 'conjD2', 'disjI1', 'disjI2', 'disjE', 'negE', 'trueI', 'falseE', 'exI', 'allE', 'trivial', 'syllogism', 'contradiction', 'iffI', 'eq_sym_eq',
                          'double_neg', 'conj_comm', 'disj_comm', 'de_morgan_thm1', 'de_morgan_thm2', 'not_imp', 'eq_true', 'disj_conv_imp', 'add_0_right', 'add_0_left', 'add_comm', 'mult_comm',
                          'resolution', 'classical', 'if_P', 'eta_conversion')
@@ -79,7 +85,7 @@ def pools():
         for t in rnd.sample(terms, 6):
             args.append((n, t))
     args += [[p], [Exists(u, P(u))], [], (names[0], Inst(A=p, B=q)), ('conjI', Inst(A=q)), ('allE', Inst(x=a))]
-    base = [Thm(t) for t in terms[:40]] + [Thm(t, t) for t in (p, q, And(p, q), P(a), Eq(a, b), Not(p), Implies(p, q))] + [Thm(q, p), Thm(P(a), Forall(u, P(u)))]
+    base = [Thm(t) for t in terms[:40]] + [Thm(t) for t in hoterms] + [Thm(t, t) for t in (p, q, And(p, q), P(a), Eq(a, b), Not(p), Implies(p, q))] + [Thm(q, p), Thm(P(a), Forall(u, P(u)))]
     prevs = [[]] + [[t] for t in base]
     _P.update({'terms': terms, 'names': names, 'args': args, 'base': base, 'prevs': prevs})
     macs = []
